@@ -22,23 +22,40 @@ def run_spec(ctx, tier):
     return recs
 
 
-def decode(rec):
-    N = modq.to_fraction(rec['normsq'])
-    lead = modq.to_fraction(rec['lead'])
+def _guarded(v, s):
+    """float of a residue vector, NaN when the exact value is beyond what the carrier can bring back (see modq.to_fraction)"""
+    try:
+        return float(modq.to_fraction(v, guard=True)) * s
+    except modq.Unreconstructable:
+        return float('nan')
+
+
+def decode(rec, guard=False):
+    N = modq.to_fraction(rec['normsq'], guard=guard)
+    lead = modq.to_fraction(rec['lead'], guard=guard)
     if N <= 0 or lead == 0:
         raise core.Machinery('QPoly: non-positive norm or zero leading coefficient (m=%s n=%s)' % (rec['m'], rec['n']))
     sgn = 1 if lead > 0 else -1
     s = sgn / math.sqrt(N)
+    if guard:
+        return dict(m=rec['m'], n=rec['n'], pts=[Fraction(*p) for p in rec['pts']], normsq=N,
+                    vals=[_guarded(v, s) for v in rec['vals']], ders=[_guarded(v, s) for v in rec['ders']], qders=[])
     return dict(m=rec['m'], n=rec['n'], pts=[Fraction(*p) for p in rec['pts']], normsq=N,
                 vals=[float(modq.to_fraction(v)) * s for v in rec['vals']], ders=[float(modq.to_fraction(v)) * s for v in rec['ders']],
                 qders=[[float(modq.to_fraction(v)) * s for v in row] for row in rec.get('qders', [])])
 
 
 def replay_values(rec, ctx, np, P):
-    e = decode(rec)
+    e = decode(rec, guard=True)
     m, n = e['m'], e['n']
     xs = np.array([float(p) for p in e['pts']])
     want = np.array(e['vals'])
+    ok = np.isfinite(want)          # points whose exact value the carrier cannot bring back are not compared (counted in the notes)
+    if not ok.all():
+        ctx.notes.append('QPoly m=%d n=%d: %d of %d points beyond the reconstruction bound, not compared' % (m, n, int((~ok).sum()), len(ok)))
+    xs, want = xs[ok], want[ok]
+    if not len(xs):
+        return
     tol = 1e-9 * (1 + core.maxabs(want)) * (1 + n)
     fails = []
     try:
